@@ -2,6 +2,7 @@
 (solver level or through habutax.main()), run R1 on the run's final inputs, and evaluate
 the per-property oracles.  Every oracle returns a list of findings
 {'property','oracle','key','msg'}; property modules select the ones they decide."""
+import configparser
 import contextlib
 import io
 import os
@@ -64,8 +65,16 @@ class RealRun(object):
 def solution_dict(cfg):
     out = {}
     for sec in cfg.sections():
-        out[sec] = {k: cfg.get(sec, k, raw=True) for k in cfg.options(sec)}
+        out[sec] = {k: _sol_get(cfg, sec, k) for k in cfg.options(sec)}
     return out
+
+
+def _sol_get(cfg, sec, k):
+    """a solution's text the way its users read it (solution[form][line], the filler): through the stock reader"""
+    try:
+        return cfg.get(sec, k)
+    except configparser.InterpolationError:
+        return cfg.get(sec, k, raw=True)
 
 
 def config_items(cfg):
@@ -176,6 +185,25 @@ def execute_reuse(case, seed):
                 continue
             case2['persona'][q] = {'text': txt, 'typed': typed, 'invalid': False}
             edits.append(['set', q, txt])
+    if rng.chance(0.3):
+        # the second Solver works with another version of the forms: an input that was read is plain text there
+        cands = [q for q in read if (input_spec_of(case['world'], q) or {}).get('type') in ('bool', 'int', 'float')
+                 and not (input_spec_of(case['world'], q) or {}).get('count') and not case2['persona'][q]['invalid']]
+        if cands:
+            q = rng.pick(cands)
+            fname, iname = q.split('.')[0].split(':')[0], q.split('.')[1]
+            for fs_ in case2['world']['forms']:
+                if fs_['name'] == fname:
+                    for i_ in fs_['inputs']:
+                        if i_['name'] == iname:
+                            for k_ in [k_ for k_ in i_ if k_ not in ('name',)]:
+                                del i_[k_]
+                            i_['type'] = 'str'
+            for n_, p_ in case2['persona'].items():
+                if n_.split('.')[0].split(':')[0] == fname and n_.split('.')[1] == iname:
+                    p_['typed'] = ['s', p_['text'].strip()]     # any text is valid text
+                    p_['invalid'] = False
+            edits.append(['respec', q, 'str'])
     case2['prompt'] = rng.chance(0.5)
     case2['refuse_at'] = None if rng.chance(0.7) else 0
     run2 = execute(case2, store=store)
@@ -395,7 +423,7 @@ def judge_common(run, r1):
             if uf != {k: set(v) for k, v in r1.blocked.items()}:
                 out.append(F('C05', 'C05.model', 'unmet-fields', f'unmet fields {run.unmet_f} model {r1.summary()["blocked"]}'))
         # ---- C04.model ----
-        if run.outcome == 'solved' and (r1.verdict != 'abort' or set(r1.aborts) == {'<solution>'}) and set(flat) != set(r1.demanded):
+        if run.outcome == 'solved' and r1.verdict != 'abort' and set(flat) != set(r1.demanded):
             out.append(F('C04', 'C04.model', 'closure',
                          f'solution lines differ from the demand closure: extra {sorted(set(flat) - r1.demanded)[:6]} '
                          f'missing {sorted(r1.demanded - set(flat))[:6]}'))
@@ -430,7 +458,7 @@ def judge_synth(case, run, r1):
                 out.append(F(prop, f'{prop}.stored', 'stored-differs',
                              f'{q}: evaluation returned {st}, re-derivation gives {nv}'))
     # ---- C04: closure (whenever success is reported) ----
-    if run.outcome == 'solved' and (r1.verdict != 'abort' or set(r1.aborts) == {'<solution>'}):
+    if run.outcome == 'solved' and r1.verdict != 'abort':
         flat = flat_solution(run)
         hist = closure_from_history(case, run)
         if hist is not None and set(flat) != hist:
